@@ -58,11 +58,15 @@ pub struct Cfg {
     /// (0 and 1 both mean a single caller); every caller's result is compared
     #[serde(default)]
     pub callers: usize,
+    /// the additional concurrent callers work on OTHER inputs of the same family and size (their
+    /// results are not judged; caller 0 must still get the reference outcome)
+    #[serde(default)]
+    pub callers_other: bool,
 }
 
 impl Cfg {
     pub fn reference() -> Cfg {
-        Cfg { workers: 1, strategy: "sequential".into(), sched_seed: 0, hash_seed: 0, addr_seed: None, prefix: vec![], from_worker: false, decisions: None, repeat: false, callers: 1 }
+        Cfg { workers: 1, strategy: "sequential".into(), sched_seed: 0, hash_seed: 0, addr_seed: None, prefix: vec![], from_worker: false, decisions: None, repeat: false, callers: 1, callers_other: false }
     }
 }
 
@@ -152,9 +156,23 @@ pub fn run_one(sc: &Scenario, op: &'static OpDef, input: &Input, prefix_inputs: 
     let from_worker = cfg.from_worker;
     let repeat = cfg.repeat;
     let callers = cfg.callers.max(1);
-    let make_body = || {
+    // (never for the operations that can run away on unscreened inputs, nor under a forced Frag)
+    let other_ok = cfg.callers_other && sc.knobs.strategy != 4 && sc.input.size <= 10_000 && !matches!(sc.op.as_str(), "sweep_intersections" | "sweep_intersections_refs" | "interior_point" | "monotone_subdivision" | "misc_per_type" | "collection_ops");
+    let others: Vec<Input> = if other_ok {
+        (1..callers).map(|k| inputs::build(&InputSpec { family: sc.input.family.clone(), size: sc.input.size, seed: mix(&[sc.input.seed, k as u64, 0xca11e5]) })).collect()
+    } else {
+        vec![]
+    };
+    let others = &others;
+    let make_body = |k: usize| {
         move || {
+            let input: &Input = if k > 0 && !others.is_empty() { &others[k - 1] } else { input };
+            let foreign = k > 0 && !others.is_empty();
             let body = move || {
+                if foreign {
+                    // a concurrent caller with its own input: only its interference matters
+                    return std::panic::catch_unwind(std::panic::AssertUnwindSafe(|| exec(op, input))).unwrap_or_default();
+                }
                 for (pop, pin) in prefix_inputs {
                     // the prefix only churns thread-local key counters, lazies and the heap; a panic
                     // in it is not the call under test
@@ -175,11 +193,14 @@ pub fn run_one(sc: &Scenario, op: &'static OpDef, input: &Input, prefix_inputs: 
             }
         }
     };
-    let (mut all, report) = sim::run_multi(scfg, (0..callers).map(|_| make_body()).collect());
-    // all callers must agree; report the first one that differs from caller 0 (if any) so that a
-    // disagreement between callers can never be masked
+    let (mut all, report) = sim::run_multi(scfg, (0..callers).map(make_body).collect());
+    // all callers (with the same input) must agree; report the first one that differs from
+    // caller 0 (if any) so that a disagreement between callers can never be masked
     let first = all.remove(0);
     let mut res = first;
+    if !others.is_empty() {
+        all.clear();
+    }
     if let Ok(b0) = &res {
         for other in all {
             match other {
@@ -376,6 +397,7 @@ pub fn gen_cfg(seed: u64, v: u64) -> Cfg {
         decisions: None,
         repeat: rng.chance(1, 6),
         callers: if rng.chance(1, 6) { 2 + rng.below(2) } else { 1 },
+        callers_other: rng.chance(1, 2),
     }
 }
 
@@ -496,6 +518,7 @@ fn minimise(sc: &Scenario, cfg: &Cfg) -> Option<Minimised> {
     try_reset("from_worker", &|c| c.from_worker = false, &mut cfg);
     try_reset("repeat", &|c| c.repeat = false, &mut cfg);
     try_reset("callers", &|c| c.callers = 1, &mut cfg);
+    try_reset("callers_other", &|c| c.callers_other = false, &mut cfg);
     try_reset("addr", &|c| c.addr_seed = None, &mut cfg);
     try_reset("hash", &|c| c.hash_seed = 0, &mut cfg);
     try_reset(
@@ -695,6 +718,9 @@ fn account(t: &mut Tot, sc: &Scenario, cfg: &Cfg, info: &RunInfo) {
     }
     if cfg.callers > 1 {
         t.add("runs_with_concurrent_callers", 1);
+        if cfg.callers_other {
+            t.add("runs_with_concurrent_callers_on_other_inputs", 1);
+        }
     }
     if cfg.prefix.iter().any(|p| p.starts_with("@self")) {
         t.add("runs_with_self_prefix", 1);
